@@ -32,6 +32,7 @@ type JobSpec struct {
 	Unwind     int               `json:"unwind"`
 	MaxPreempt int               `json:"max_preempt"`
 	MaxDeviate int               `json:"max_deviate"`
+	MaxValues  int               `json:"max_values"`
 	TimeoutMs  int               `json:"timeout_ms"`
 	Solver     string            `json:"solver"`
 	NoReplay   bool              `json:"no_replay"` // schedule counterexamples: confirmed by deterministic re-execution
@@ -117,7 +118,7 @@ func expandJobs(specs []JobSpec) ([]Job, error) {
 		var rec func(i int, cur []int64)
 		rec = func(i int, cur []int64) {
 			if i == len(lists) {
-				out = append(out, Job{Harness: s.Harness, Args: append([]int64(nil), cur...), MaxPaths: s.MaxPaths, Unwind: s.Unwind, MaxPreempt: s.MaxPreempt, MaxDeviate: s.MaxDeviate, TimeoutMs: s.TimeoutMs, Solver: s.Solver})
+				out = append(out, Job{Harness: s.Harness, Args: append([]int64(nil), cur...), MaxPaths: s.MaxPaths, Unwind: s.Unwind, MaxPreempt: s.MaxPreempt, MaxDeviate: s.MaxDeviate, MaxValues: s.MaxValues, TimeoutMs: s.TimeoutMs, Solver: s.Solver})
 				return
 			}
 			for _, v := range lists[i] {
@@ -135,13 +136,23 @@ type worker struct {
 	out *bufio.Reader
 }
 
+// inconclusiveWhere: the first few jobs in which each inconclusive reason arose
+var inconclusiveWhere = map[string][]string{}
+
+func noteWhere(k string, j Job) {
+	if len(inconclusiveWhere[k]) < 4 {
+		inconclusiveWhere[k] = append(inconclusiveWhere[k], fmt.Sprintf("%s%v", j.Harness, j.Args))
+	}
+}
+
 func startWorker(repo string) (*worker, error) {
 	self, err := os.Executable()
 	if err != nil {
 		return nil, err
 	}
 	cmd := exec.Command(self, "worker", "-repo", repo)
-	cmd.Env = append(os.Environ(), "VERIF_DIR="+verifDir)
+	// soft memory limit per worker: 16 workers must fit the machine (62 GB) together
+	cmd.Env = append(os.Environ(), "VERIF_DIR="+verifDir, "GOMEMLIMIT=2500MiB")
 	cmd.Stderr = os.Stderr
 	in, _ := cmd.StdinPipe()
 	out, _ := cmd.StdoutPipe()
@@ -555,9 +566,11 @@ func checkMain(args []string) int {
 		}
 		for k, n := range r.Unsupported {
 			unsupported[k] += n
+			noteWhere(k, r.Job)
 		}
 		for k, n := range r.Unwind {
 			unwind[k] += n
+			noteWhere(k, r.Job)
 		}
 		for k, n := range r.Reach {
 			reach[k] += n
@@ -785,10 +798,10 @@ func checkMain(args []string) int {
 		fmt.Println(l)
 	}
 	for k, n := range unsupported {
-		fmt.Printf("INCONCLUSIVE unsupported (%d paths): %s\n", n, k)
+		fmt.Printf("INCONCLUSIVE unsupported (%d paths): %s [%s]\n", n, k, strings.Join(inconclusiveWhere[k], " "))
 	}
 	for k, n := range unwind {
-		fmt.Printf("INCONCLUSIVE bound (%d paths): %s\n", n, k)
+		fmt.Printf("INCONCLUSIVE bound (%d paths): %s [%s]\n", n, k, strings.Join(inconclusiveWhere[k], " "))
 	}
 	for _, c := range crashes {
 		fmt.Println("INCONCLUSIVE crash:", c)
